@@ -180,6 +180,10 @@ def run(ctx, pid):
     # then after one more call (a buffer or length carried over from the previous sub-call shows here)
     P_RDATA = [(194, ["body", "bodyD"]), (193, ["callD", "createS"]), (193, ["callO", "rdata"]), (193, ["rdata"])]
 
+    # repeated self-destructs of one contract with re-funding in between and a reverting ancestor
+    P_SD2 = [(194, ["sdcond"]), (193, ["call194", "call194v"]), (193, ["call194", "call194v"]), (193, ["call195", "call194"]),
+             (193, ["call194", "call194v"]), (195, ["call194", "call194v"]), (195, ["call194"]), (195, ["rev"])]
+
     if pid == "C01":
         # every mainnet SpecId in both tiers (a fork-specific slip must not hide behind the rotation);
         # generation runs four TLC processes at a time
@@ -202,6 +206,10 @@ def run(ctx, pid):
         for f in rot(["CANCUN", "BERLIN", "HOMESTEAD"], 1 if q else 3):
             r = planned("c01nested_" + f, f, [193, 194], P_NESTED)
             replay(ctx, res, r, "c01nested_" + f, binary)
+        # what is left of an account that self-destructs twice when the second time is rolled back (whole post-state)
+        for f in rot(["SHANGHAI", "BYZANTIUM", "CANCUN", "HOMESTEAD"], 1 if q else 4):
+            r = planned("c01sd2_" + f, f, C3, P_SD2, gas=[600000])
+            replay(ctx, res, r, "c01sd2_" + f, binary)
         # code deposit that the create frame cannot afford: creates below calls with 700 / 40000 gas
         for f in (rot(["FRONTIER", "HOMESTEAD", "SPURIOUS_DRAGON", "LONDON"], 2) if q else ["FRONTIER", "HOMESTEAD", "SPURIOUS_DRAGON", "BERLIN", "LONDON", "PRAGUE"]):
             r = planned("c01deposit_" + f, f, [193, 194], [(194, ["createS"]), (193, ["callS"])])
@@ -232,6 +240,14 @@ def run(ctx, pid):
         for f in rot(["BYZANTIUM", "CANCUN", "HOMESTEAD"], 1 if q else 3):
             r = planned("c07sib_" + f, f, [193, 194], [(194, ["body", "rev"]), (193, ["callS"]), (193, ["call194"]), (193, ["call194"])])
             replay(ctx, res, r, "c07sib_" + f, binary, facets=facets)
+        # a create rejected for a collision (code / nonce / storage at the derived address) must give its depth back too
+        z = {0: 0, 1: 0, 2: 0, 3: 0}
+        for pn, pre in (("storage", dict(ex=True, bal=0, nonce=0, stor={0: 0, 1: 5, 2: 0, 3: 0})),
+                        ("nonce", dict(ex=True, bal=0, nonce=1, stor=z))):
+            for f in rot(["LONDON", "BYZANTIUM", "PRAGUE"], 1 if q else 3):
+                r = planned("c07coll_%s_%s" % (f, pn), f, [193, 194], [(193, ["createS"]), (193, ["call194"])],
+                            tokens={1000000001: pre})
+                replay(ctx, res, r, "c07coll_%s_%s" % (f, pn), binary, facets=facets)
     elif pid in ("C08", "C09"):
         for f in rot(["LONDON", "PRAGUE", "FRONTIER", "ISTANBUL", "SPURIOUS_DRAGON", "CANCUN", "BERLIN", "HOMESTEAD"], 3 if q else 8):
             r = sim(pid + "_" + f, f, ["store", "call", "create", "term", "mem", "env"], prices=(7, 10) if FORKS.index(f) >= 12 else (1, 10))
@@ -243,8 +259,6 @@ def run(ctx, pid):
             replay(ctx, res, r, pid + "refund_" + f, binary, facets=facets)
         if pid == "C08":
             # repeated self-destructs of one contract with re-funding in between and a reverting ancestor
-            P_SD2 = [(194, ["sdcond"]), (193, ["call194", "call194v"]), (193, ["call194", "call194v"]), (193, ["call195", "call194"]),
-                     (193, ["call194", "call194v"]), (195, ["call194", "call194v"]), (195, ["call194"]), (195, ["rev"])]
             for f in rot(["SHANGHAI", "BYZANTIUM", "CANCUN", "HOMESTEAD"], 2 if q else 4):
                 r = planned("c08sd2_" + f, f, C3, P_SD2, gas=[600000])
                 replay(ctx, res, r, "c08sd2_" + f, binary, facets=facets)
@@ -264,7 +278,10 @@ def run(ctx, pid):
                 "nonce": dict(ex=True, bal=0, nonce=1, stor=z), "balance": dict(ex=True, bal=2, nonce=0, stor=z)}
         for f in rot(["PETERSBURG", "LONDON", "CANCUN", "PRAGUE"], 1 if q else 4):
             for pn, pre in pres.items():
-                r = planned("c21_%s_%s" % (f, pn), f, [193], [(193, ["createS"])], targets=[193, 0], tokens={1000000001: pre})
+                # (a plain call follows the create: its callback depth shows whether the rejected create gave its
+                # journal level back)
+                r = planned("c21_%s_%s" % (f, pn), f, [193, 194], [(193, ["createS"]), (193, ["call194"])], targets=[193, 0],
+                            tokens={1000000001: pre})
                 for db in ("state", "cachedb", "cachedb_ins", "state_nobundle"):
                     replay(ctx, res, r, "c21_%s_%s" % (f, pn), binary, db=db)
             # the target is first touched / funded by a committed transaction, then created onto
@@ -294,6 +311,12 @@ def run(ctx, pid):
                         maxtx=2, targets=[193, 194], coinbases=(COINBASE, COINBASE2), rejections=True)
             replay(ctx, res, r, "c31leak_" + f, binary, reuse=1)
             replay(ctx, res, r, "c31leak_" + f, binary, reuse=0)
+        # transient storage must not survive a transaction: a contract that first reads slot 0 (and stores what it
+        # read), then writes it, called by two transactions in a row
+        for f in rot(["CANCUN", "PRAGUE"], 1 if q else 2):
+            r = planned("c31tleak_" + f, f, [193, 194], [(194, ["tstore"]), (194, ["tstore"]), (193, ["call194", "tstore"])],
+                        maxtx=3 if not q else 2, targets=[193, 194])
+            replay(ctx, res, r, "c31tleak_" + f, binary, reuse=1)
     elif pid == "C25":
         for f in rot(["BYZANTIUM", "CANCUN", "LONDON", "PRAGUE"], 2 if q else 4):
             r = planned("c25rdata_" + f, f, [193, 194], P_RDATA)
